@@ -1,7 +1,7 @@
 #!/bin/bash
 # tools/try_seed.sh <patch.diff> <ID> [<ID> ...]  : apply a seeded change to /repo, run the quick checks, undo it straight afterwards
 set -u
-patch=$1; shift
+patch=$(readlink -f "$1"); shift
 cd /repo || exit 9
 if [ -n "$(git status --porcelain --untracked-files=no)" ]; then echo "/repo not clean"; exit 9; fi
 git apply "$patch" || { echo "patch does not apply"; exit 9; }
